@@ -366,12 +366,18 @@ def saves(obs: Obs, ref: RefResult) -> Optional[str]:
         for name in executed:
             nid = spec.node_id(name)
             lst = per.get(nid, [])
+            fin = ref.final.get(name)
+            if not isinstance(fin, Val):
+                # executed but without a final value (a contained failure of a losing one-of candidate):
+                # there is nothing to save, and nothing may be saved
+                if lst:
+                    return "saved_without_final_value:%s" % name
+                continue
             if len(lst) == 0:
                 return "not_saved:%s" % name
             if len(lst) > 1:
                 return "saved_twice:%s" % name
-            fin = ref.final.get(name)
-            if isinstance(fin, Val) and not same(lst[0], fin.v):
+            if not same(lst[0], fin.v):
                 return "saved_value_differs:%s" % name
         for nid in per:
             nm = spec.name_of(nid)
